@@ -33,7 +33,8 @@ std::string nameOf(NiObject* o) {
 static NiObject* topA = nullptr;
 static NiObject* topB = nullptr;
 static bool modelSpaceStripped = false;   // Skyrim shapes with model-space normals: the clone drops normals and tangents, and with them the vertex layout kept in NiSkinPartition
-bool iso(const GraphSnap& ga, NiObject* a, const GraphSnap& gb, NiObject* b, bool top, std::set<std::pair<NiObject*, NiObject*>>& seen, std::string& err, std::string& cls, long& blocks) {
+// flA / flB: the child of the shape (source / clone) below which a and b sit; CloneChildren rebinds pointers to that block anywhere in its sub-tree
+bool iso(const GraphSnap& ga, NiObject* a, const GraphSnap& gb, NiObject* b, bool top, std::set<std::pair<NiObject*, NiObject*>>& seen, std::string& err, std::string& cls, long& blocks, NiObject* flA = nullptr, NiObject* flB = nullptr) {
 	if (!seen.insert({a, b}).second) return true;
 	const BlockSnap& ba = ga.blocks[ga.index.at(a)];
 	const BlockSnap& bb = gb.blocks[gb.index.at(b)];
@@ -58,7 +59,7 @@ bool iso(const GraphSnap& ga, NiObject* a, const GraphSnap& gb, NiObject* b, boo
 			NiObject* tb = bb.slotTarget[ob[j]];
 			if (!ta) continue;
 			if (!tb) { cls = "ref-unresolved/" + ba.type; err = ba.type + ": an owning slot resolves to nothing in the destination"; return false; }
-			if (!iso(ga, ta, gb, tb, false, seen, err, cls, blocks)) return false;
+			if (!iso(ga, ta, gb, tb, false, seen, err, cls, blocks, flA, flB)) return false;
 		}
 		return true;
 	}
@@ -71,6 +72,7 @@ bool iso(const GraphSnap& ga, NiObject* a, const GraphSnap& gb, NiObject* b, boo
 			if (ba.slotIndex[k] == NIF_NPOS && bb.slotIndex[k] != NIF_NPOS && !ptr) { cls = "empty-ref-filled/" + ba.type; err = ba.type + fmt(": slot %zu is empty in the source but holds %u in the clone", k, bb.slotIndex[k]); return false; }
 			continue;
 		}
+		if (ptr && flA && ta == flA && tb != flB) { cls = "pointer-to-owner-not-rebound/" + ba.type; err = ba.type + fmt(": pointer slot %zu designates the %s this block hangs below (e.g. a controller's target); in the clone it designates %s instead of the cloned %s", k, ga.blocks[ga.index.at(ta)].type.c_str(), !tb ? "nothing" : tb == ta ? "the source's block" : gb.blocks[gb.index.at(tb)].type.c_str(), ga.blocks[ga.index.at(ta)].type.c_str()); return false; }
 		if (!tb) {
 			if (ptr) continue;   // a back-pointer that cannot be rebound may be dropped
 			cls = "ref-unresolved/" + ba.type;
@@ -83,7 +85,7 @@ bool iso(const GraphSnap& ga, NiObject* a, const GraphSnap& gb, NiObject* b, boo
 			if (ta == topA && tb != topB) { cls = "pointer-to-shape-not-rebound/" + ba.type; err = ba.type + fmt(": pointer slot %zu designates the source shape, in the clone it designates %s instead of the cloned shape", k, gb.blocks[gb.index.at(tb)].type.c_str()); return false; }
 			continue;
 		}
-		if (!iso(ga, ta, gb, tb, false, seen, err, cls, blocks)) return false;
+		if (!iso(ga, ta, gb, tb, false, seen, err, cls, blocks, flA, flB)) return false;
 	}
 	return true;
 }
@@ -159,7 +161,7 @@ void cloneCheck(NifFile& src, NiShape* srcShape, NifFile& dst, bool sameModel, c
 			if (bs.slotIsPtr[k] == 1) continue;
 			if (!tb) { R_viol("clone", "ref-unresolved/" + bs.type, w + fmt(": the shape's slot %zu (%s in the source) resolves to nothing in the destination", k, gs.blocks[gs.index.at(ta)].type.c_str())); return; }
 			if (sameModel && ta == tb) { R_viol("clone", "shares-child-with-source/" + gs.blocks[gs.index.at(ta)].type, w + fmt(": clone and source share the same %s block", gs.blocks[gs.index.at(ta)].type.c_str())); return; }
-			if (!iso(gs, ta, gd, tb, false, seen, err, cls, blocks)) { R_viol("clone", cls, w + ": " + err); return; }
+			if (!iso(gs, ta, gd, tb, false, seen, err, cls, blocks, ta, tb)) { R_viol("clone", cls, w + ": " + err); return; }
 		}
 		R_stat("cloned_blocks_compared", blocks);
 		// accessor level: geometry, shader, textures, skin
